@@ -346,3 +346,13 @@ def _caret_fragment(nth):
                        r == char_index(window_text@, local_start as int) - char_index(window_text@, ls) })""")],
          canaries=['C17:the_caret_is_indented_by_the_number_of_characters_between_the_start_of_its_line_and_the_marker'])
 ITEMS += [_caret_fragment(1), _caret_fragment(2)]
+# ---- crop_window_text as a whole, against the sentence of C17 (harness only: the deductive contract above proves safety, bounds and the
+# rebased marker; what the cropped TEXT is, is checked here on the real function text, bounded) ----
+ITEMS += [
+    dict(src=SN, path='fn crop_window_text', id='crop_window_text#lines', harness_only=True, bounded_only=True, trusted=True, props=[], bounded_props=P,
+         bounded=dict(harness='bounded/crop_window.rs', items=[('src/de/snippet.rs', 'struct LineCrop'), ('src/de/snippet.rs', 'fn col_to_byte_offset_in_line'),
+                                                                ('src/de/snippet.rs', 'fn crop_line_by_cols'), ('src/de/snippet.rs', 'fn is_terminal_snippet_clean'),
+                                                                ('src/de/snippet.rs', 'fn sanitize_terminal_snippet_preserve_len'), ('src/de/snippet.rs', 'fn crop_window_text')]),
+         ensures=[('C17:every_line_of_the_window_is_shown_cropped_to_the_radius_around_the_error_column', 'true'),
+                  ('C17:the_marker_still_starts_at_the_character_of_the_reported_column', 'true')]),
+]
